@@ -533,10 +533,17 @@ def run(ctx):
     ctx.c32_variant = report_witnesses(ctx)
     fxf, fxa = ctx.c32_variant
     ctx.log('implementation variant: repaired lookahead =', fxf, ' repaired accept =', fxa)
+    import time
+    tm = ctx.cov['stages'].setdefault('timing_s', {})
+    t0 = time.time()
     exp = regen(ctx)
+    tm['regen'] = round(time.time() - t0, 1)
+    t0 = time.time()
     ok, _ = ctx.build(['Proofs/C32_sound.vo', 'Proofs/C32_complete.vo', 'Gen/lr_tables.vo'])
     if ok:
         ctx.check_props('Props/C32.v')
+    tm['build_and_props'] = round(time.time() - t0, 1)
+    t0 = time.time()
     if ctx.build(['Gen/lr_tables.vo', 'Model/LrBuilder.vo', 'Lib/Val.vo'])[0]:
         cases, recs = [], []
         dist = {'family_ok': 0, 'family_builder_error': 0, 'family_sr_resolved': 0, 'accepted': 0, 'rejected': 0,
@@ -606,6 +613,8 @@ def run(ctx):
                         'validator': 'real tables are rejected by the verified validator tables_ok',
                         'parser': 'Model.LrValidator.parse_model disagrees with LrParser.parse'}[kind]
                 ctx.failed_stages.append(('correspondence_' + kind, '%s on %d cases, first: %s %s' % (what, len(l), l[0][0], l[0][1] or '')))
+    tm['correspondence'] = round(time.time() - t0, 1)
+    t0 = time.time()
     # real grammars against the independent Earley recognizer
     n = 0
     for ent in exp['real']:
@@ -618,6 +627,7 @@ def run(ctx):
     ctx.cov['stages']['real_grammar_oracle'] = n
     ctx.cov['evaluations'] += n
     search(ctx)
+    tm['oracle'] = round(time.time() - t0, 1)
     ctx.cov['exhaustive'] = not ctx.quick()
     ctx.cov['rule'] = RULE
 
